@@ -39,7 +39,7 @@ Definition erel (B : string) (x y : log_entry) : Prop :=
   match x, y with
   | LCommitChan d1, LCommitChan d2 => DR B d1 d2
   | LCommitUsage u1, LCommitUsage u2 => app_usage u2 B = app_usage u1 B
-  | LFrame c1 f1 _, LFrame c2 f2 _ => c1 = c2 /\ f1 = f2
+  | LFrame c1 f1 _ _, LFrame c2 f2 _ _ => c1 = c2 /\ f1 = f2
   | _, _ => False
   end.
 
